@@ -407,13 +407,11 @@ func (fx *FX) evalExpr(env *Env, e Expr) Val {
 		case x.Typ != nil && isMapType(x.Typ):
 			mt := x.Typ.Underlying().(*types.Map)
 			k := fx.evalExpr(env, t.I)
-			vs, ks := w.SortOf(mt.Elem()), w.SortOf(mt.Key())
-			fname := "map_get_" + sortID(ks) + "_" + sortID(vs)
-			hname := "map_has_" + sortID(ks)
-			w.Declare(fname, fmt.Sprintf("(declare-fun %s (Int %s) %s)", fname, ks, vs))
-			w.Declare(hname, fmt.Sprintf("(declare-fun %s (Int %s) Bool)", hname, ks))
-			v := Ite(app(hname, SBool, x.T, k.T), app(fname, vs, x.T, k.T), w.Zero(mt.Elem()))
-			return Val{T: v, Typ: mt.Elem()}
+			if k.T.Sort == litSort {
+				k = coerce(k, w.SortOf(mt.Key()), isSigned(mt.Key()))
+			}
+			has, val := fx.mapRead(env.st, x.T, k.T, mt)
+			return Val{T: Ite(has, val, w.Zero(mt.Elem())), Typ: mt.Elem()}
 		case strings.HasPrefix(x.T.Sort, "(Array "):
 			is, _ := splitArray(x.T.Sort)
 			i = coerce(fx.evalExpr(env, t.I), is, true)
@@ -711,6 +709,19 @@ func (fx *FX) evalCall(env *Env, t *ECall) Val {
 		return Val{T: sCap(arg(0).T), Typ: types.Typ[types.Int]}
 	case "allmem":
 		return Val{T: fx.comp(env.st, "M:bv8", SArr(SInt, SBytes))}
+	case "has":
+		// has(m, k): key k is present in map m
+		x := arg(0)
+		if x.Typ == nil || !isMapType(x.Typ) {
+			env.fail("has() needs a map")
+		}
+		mt := x.Typ.Underlying().(*types.Map)
+		k := arg(1)
+		if k.T.Sort == litSort {
+			k = coerce(k, w.SortOf(mt.Key()), isSigned(mt.Key()))
+		}
+		h, _ := fx.mapRead(env.st, x.T, k.T, mt)
+		return Val{T: h}
 	case "isnan":
 		x := arg(0)
 		return Val{T: app("fp.isNaN", SBool, x.T)}
